@@ -364,17 +364,19 @@ def _eval_flag(expr, envval):
     raise AnalysisError(f"mode flag expression `{ast.unparse(expr)}` is not in a form the evaluator reads")
 
 
-def _strip_logging(stmts):
+def _strip_logging(stmts, fresh=False):
+    if not fresh:
+        # re-parse: the analysed tree carries parent links, copying it would copy the module
+        stmts = ast.parse("\n".join(ast.unparse(s) for s in stmts)).body if stmts else []
     out = []
     for s in stmts:
         if is_logging_stmt(s):
             continue
-        s = copy.deepcopy(s)
         for fld in ("body", "orelse", "finalbody"):
             if hasattr(s, fld) and isinstance(getattr(s, fld), list):
-                setattr(s, fld, _strip_logging(getattr(s, fld)) or [ast.Pass()])
+                setattr(s, fld, _strip_logging(getattr(s, fld), True) or ([ast.Pass()] if fld == "body" else []))
         for h in getattr(s, "handlers", []) or []:
-            h.body = _strip_logging(h.body) or [ast.Pass()]
+            h.body = _strip_logging(h.body, True) or [ast.Pass()]
         out.append(s)
     return out
 
